@@ -35,15 +35,17 @@ Proof. reflexivity. Qed.
 (* the hypotheses of offset_identifies / request_decodes_to_submitted / nothing_added hold for every generation, with the
    third message of partition (0,2) (index 2) reported at base + 2 = 4294967339 and found there with its key, its EMPTY
    value and its timestamp truncated to 1600000000003 ms *)
-Example ex_offset_identifies : forall c, In c [gz08; gz10; plain10; zstd21] ->
+Definition ex_offset_stmt (c : pcfg) : Prop :=
   exists x r m, part_lookup (0, 2) (s_parts (ex_set c)) = Some x /\ build_part c x = Some r /\
     nth_error (ps_msgs x) 2 = Some m /\ pm_id m = 3 /\
     nth_error (assign_offsets 4294967337 (ps_msgs x)) 2 = Some (m, 4294967339) /\
     log_lookup 4294967339 (append_records 4294967337 (decoded_view r)) =
       Some (mkEntry (Some [107]) (Some []) [] (if v0_10 c then Some 1600000000003000000 else None)).
-Proof.
-  intros c [<-|[<-|[<-|[<-|[]]]]]; eexists; eexists; eexists; conj; run.
-Qed.
+Ltac ex_offset := unfold ex_offset_stmt; eexists; eexists; eexists; conj.
+Example ex_offset_identifies_gz08 : ex_offset_stmt gz08. Proof. ex_offset. - run. - run. - run. - run. - run. - run. Qed.
+Example ex_offset_identifies_gz10 : ex_offset_stmt gz10. Proof. ex_offset. - run. - run. - run. - run. - run. - run. Qed.
+Example ex_offset_identifies_plain10 : ex_offset_stmt plain10. Proof. ex_offset. - run. - run. - run. - run. - run. - run. Qed.
+Example ex_offset_identifies_zstd21 : ex_offset_stmt zstd21. Proof. ex_offset. - run. - run. - run. - run. - run. - run. Qed.
 
 Example ex_headers :
   let s := fst (add_all zstd21 (new_set 4711 1) ex_hdr_msgs) in
@@ -51,7 +53,7 @@ Example ex_headers :
     map snd (append_records 7 (decoded_view r)) =
       [mkEntry None (Some [49]) [mkHeader (Some [104]) None; mkHeader (Some []) (Some [1; 2])] (Some T0);
        mkEntry (Some []) None [] (Some (T0 - 2000000))].
-Proof. cbv zeta. eexists; eexists; conj; run. Qed.
+Proof. cbv zeta. eexists; eexists. conj. - run. - run. - run. Qed.
 
 (* routing: writable partitions [1; 2] (partition 0 has no leader), the partitioner answers index 1: partition 2 on the
    first pass, kept on two retries whatever the metadata and the partitioner would say then *)
@@ -66,10 +68,10 @@ Definition fin_marker : pmsg := mkPM (-1) None None [] ZERO_TIME 160000000000000
 Definition syn_marker : pmsg := mkPM (-1) None None [] ZERO_TIME 0 0 1 false.
 Definition healthy : bpst := mkBp (new_set 4711 0) false [].
 Example ex_guarded :
-  guarded zstd21 healthy [BRecv (0, 2) syn_marker; BRecv (0, 2) (mk 1 None (Some [49]) [] T0); BDrop (0, 2);
+  guarded false zstd21 healthy [BRecv (0, 2) syn_marker; BRecv (0, 2) (mk 1 None (Some [49]) [] T0); BDrop (0, 2);
                           BRecv (0, 2) (mk 2 None (Some [50]) [] T0); BRecv (0, 2) fin_marker; BRecv (0, 2) syn_marker;
                           BRecv (0, 2) (mk 2 None (Some [50]) [] T0)] /\
-  held (0, 2) (bs_set (bp_run zstd21 healthy [BRecv (0, 2) syn_marker; BRecv (0, 2) (mk 1 None (Some [49]) [] T0); BDrop (0, 2);
+  held (0, 2) (bs_set (bp_run false zstd21 healthy [BRecv (0, 2) syn_marker; BRecv (0, 2) (mk 1 None (Some [49]) [] T0); BDrop (0, 2);
                           BRecv (0, 2) (mk 2 None (Some [50]) [] T0); BRecv (0, 2) fin_marker; BRecv (0, 2) syn_marker;
                           BRecv (0, 2) (mk 2 None (Some [50]) [] T0)])) = [mk 2 None (Some [50]) [] T0].
 Proof. split; [vm_compute; conj; auto | run]. Qed.
@@ -80,15 +82,15 @@ Proof. split; [vm_compute; conj; auto | run]. Qed.
    idempotent producer: retriable answer -> retryBatch re-sends the batch itself -> the connection drops -> the
    messages come back with retries + 2 after the partition worker has moved to a new broker worker.) *)
 Theorem marker_accepted_witness :
-  let st := bp_step zstd21 healthy (BRecv (0, 2) fin_marker) in
+  let st := bp_step false zstd21 healthy (BRecv (0, 2) fin_marker) in
   is_data fin_marker = false /\ is_syn fin_marker = false /\ refusing healthy (0, 2) = false /\
   held (0, 2) (bs_set st) = [fin_marker] /\
   exists x r, part_lookup (0, 2) (s_parts (bs_set st)) = Some x /\ build_part zstd21 x = Some r /\
     append_records 1004 (decoded_view r) = [(1004, mkEntry None None [] (Some 1600000000000000000))].
-Proof. cbv zeta. conj; try run. eexists; eexists; conj; run. Qed.
+Proof. cbv zeta. conj. - run. - run. - run. - run. - eexists; eexists. conj. + run. + run. + run. Qed.
 
 Theorem buffer_data_only_refuted :
-  ~ (forall c st evs, data_only st -> data_only (bp_run c st evs)).
+  ~ (forall c st evs, data_only st -> data_only (bp_run false c st evs)).
 Proof.
   intros H. specialize (H zstd21 healthy [BRecv (0, 2) fin_marker]).
   assert (D : data_only healthy) by (intros k x m []).
